@@ -42,6 +42,10 @@ CHECKS = {
    "stateless deviation-bounded DFS over fault/crash choice points on the real migrate.Executor, judged by a reference executor model",
    "Every placement of up to 2 (thorough: 3) faults - failing statement, failing revision write, simulated process death before/after either - over all 39 directory shapes (1-3 files x 1-3 statements) is executed on the real Executor with clean re-runs; order, no-skip, at-most-once-except-lost-bookkeeping and 'history never ahead of reality' are checked at every write and at the end.",
    "In-process recording driver and revision store stand in for the database (the property is about the executor's ordering of the two stores); a failed write persists nothing."),
+ "C10": ("fault_enumeration",
+   "exhaustive enumeration of every instrumented crash point x occurrence x transaction mode x directory shape on the real CLI binary and a real SQLite file; the process is killed and the command re-run",
+   "For tx-mode file/all/none and 4 (thorough 14) directory shapes incl. per-file txmode directives, a counting run lists every crash point the real `atlas migrate apply` passes (before/after each statement, each revision write, each commit); for each one the process is killed there (exit 137, no deferred code) on a fresh SQLite file and the same command is run again: after the crash no file may be half applied in file/all mode and no revision may record more statements than took effect; after the re-run every statement's effect is present exactly once (none mode: at most the one in-flight statement twice) and all revisions are complete.",
+   "SQLite file engine only; kill = os.Exit at a hook (not a torn disk write - SQLite's journal recovery is trusted); the advisory lock of the killed process is assumed expired."),
  "C11": ("model_checking",
    "exhaustive enumeration of (directory, revision table, options) configurations on the real Executor.Pending/ExecuteN against an executable set-based reference model",
    "Every directory over a universe of 4 (thorough: 5) versions (absent/migration/checkpoint) x every revision table (any subset applied, last optionally partial) x exec order x {none, allow-dirty, baseline=v} x {clean, dirty} is decided by the real Executor.Pending and compared - error class, out-of-order set and exact file list - with refPending written from the documented semantics; ExecuteN(n) for every n must run exactly the first n pending files and leave none of them pending.",
